@@ -22,26 +22,32 @@ import (
 
 // yield gives other goroutines a chance to run in the middle of a multi-element operation. It only makes
 // interesting interleavings more likely; nothing is concluded from it.
-func yield(n int) {
+func yield(n int, sleep bool) {
 	for i := 0; i < n; i++ {
 		runtime.Gosched()
 	}
-	if n >= 3 {
+	if sleep {
 		time.Sleep(20 * time.Microsecond)
 	}
 }
 
-// yieldSet is a ds.Set whose iteration yields before every element (a legal argument: the API takes interfaces,
-// reactive.Set is another implementation that is passed to these methods).
+// yieldSet is a ds.Set whose iteration yields before every element and, with the highest yield count, also
+// sleeps briefly before the first two elements (a legal argument: the API takes interfaces, reactive.Set is
+// another implementation that is passed to these methods).
 type yieldSet struct {
 	ds.Set[E]
 	yields int
 }
 
-func (y yieldSet) Range(cb func(E)) { y.Set.Range(func(e E) { yield(y.yields); cb(e) }) }
+func (y yieldSet) Range(cb func(E)) {
+	i := 0
+	y.Set.Range(func(e E) { yield(y.yields, y.yields >= 3 && i < 2); i++; cb(e) })
+}
 
 func (y yieldSet) ForEach(cb func(E) error) error {
-	return y.Set.ForEach(func(e E) error { yield(y.yields); return cb(e) })
+	i := 0
+
+	return y.Set.ForEach(func(e E) error { yield(y.yields, y.yields >= 3 && i < 2); i++; return cb(e) })
 }
 
 func (y yieldSet) ToSlice() []E {
@@ -409,13 +415,13 @@ func drawProgressProgram(t *rapid.T) progressProgram {
 				o.Arg = rapid.SampledFrom([]string{"fresh", "fresh", "fresh", "fresh", "self", "other", "readonly", "otherReadonly"}).Draw(t, "arg")
 				if o.Arg == "fresh" {
 					o.Elems = drawElems(t, universe, "argElems")
-					o.Yields = rapid.IntRange(0, 3).Draw(t, "yields")
+					o.Yields = rapid.SampledFrom([]int{0, 0, 1, 2, 3}).Draw(t, "yields")
 				}
 			}
 			if o.Op == "Apply" || o.Op == "Compute" {
 				o.Elems = drawElems(t, universe, "added")
 				o.Deleted = drawElems(t, universe, "deleted")
-				o.Yields = rapid.IntRange(0, 3).Draw(t, "yields")
+				o.Yields = rapid.SampledFrom([]int{0, 0, 1, 2, 3}).Draw(t, "yields")
 			}
 			ops = append(ops, o)
 		}
@@ -661,7 +667,7 @@ func drawAtomicProgram(t *rapid.T) atomicProgram {
 	for i := range unpaired {
 		unpaired[i] = E(unpairedBase + i)
 	}
-	p := atomicProgram{InitPairs: rapid.IntRange(0, allPairsMask).Draw(t, "initPairs"), InitUnpaired: drawElems(t, unpaired, "initUnpaired"), Reps: rapid.IntRange(1, 8).Draw(t, "repetitions")}
+	p := atomicProgram{InitPairs: rapid.IntRange(0, allPairsMask).Draw(t, "initPairs"), InitUnpaired: drawElems(t, unpaired, "initUnpaired"), Reps: rapid.IntRange(1, 4).Draw(t, "repetitions")}
 	goroutines := rapid.IntRange(3, 8).Draw(t, "goroutines")
 	ops := []string{"ApplyPairs", "ApplyPairs", "ApplyPairs", "ComputePairs", "ComputePairs", "ReplacePairs", "Add", "Delete", "Has", "AddAllUnpaired", "DeleteAllUnpaired"}
 	for g := 0; g < goroutines; g++ {
@@ -674,15 +680,15 @@ func drawAtomicProgram(t *rapid.T) atomicProgram {
 				o.AddMask = rapid.IntRange(0, allPairsMask).Draw(t, "addPairs")
 				o.DelMask = rapid.IntRange(0, allPairsMask).Draw(t, "delPairs")
 				o.Split = rapid.Bool().Draw(t, "split")
-				o.Yields = rapid.IntRange(0, 3).Draw(t, "yields")
+				o.Yields = rapid.SampledFrom([]int{0, 0, 1, 2, 3}).Draw(t, "yields")
 			case "ReplacePairs":
 				o.AddMask = rapid.IntRange(0, allPairsMask).Draw(t, "pairs")
 				o.Split = rapid.Bool().Draw(t, "split")
 				o.Unpaired = drawElems(t, unpaired, "unpaired")
-				o.Yields = rapid.IntRange(0, 3).Draw(t, "yields")
+				o.Yields = rapid.SampledFrom([]int{0, 0, 1, 2, 3}).Draw(t, "yields")
 			case "AddAllUnpaired", "DeleteAllUnpaired":
 				o.Unpaired = drawElems(t, unpaired, "unpaired")
-				o.Yields = rapid.IntRange(0, 3).Draw(t, "yields")
+				o.Yields = rapid.SampledFrom([]int{0, 0, 1, 2, 3}).Draw(t, "yields")
 			default:
 				o.E = unpaired[rapid.IntRange(0, numUnpaired-1).Draw(t, "elem")]
 			}
@@ -695,7 +701,7 @@ func drawAtomicProgram(t *rapid.T) atomicProgram {
 }
 
 func TestSetAtomicity(t *testing.T) {
-	stats.Rule(checkAtomic, "rapid draws programs of 3-8 goroutines x 1-5 operations x 1-8 repetitions on one ds.Set: Apply/Compute/Replace add and remove whole pairs (2i,2i+1) only, single-element operations and AddAll/DeleteAll touch unpaired elements only; "+
+	stats.Rule(checkAtomic, "rapid draws programs of 3-8 goroutines x 1-5 operations x 1-4 repetitions on one ds.Set: Apply/Compute/Replace add and remove whole pairs (2i,2i+1) only, single-element operations and AddAll/DeleteAll touch unpaired elements only; "+
 		"oracle: every Compute factory sees every pair complete or absent (Has and iteration), every Apply/Compute/Replace return value is pair-closed, the final set is pair-closed, the program finishes within ctl.HangTimeout; "+
 		"the mutation sets yield between elements to widen half-applied windows; the interleaving is the scheduler's; distinct by program; non-trivial = an atomic operation was observed in flight together with another goroutine's atomic operation or writer")
 
